@@ -13,13 +13,18 @@ From Hts Require Import Base.Prim Generated Model.Fai Proofs.FaiBase Proofs.FaiI
 From Coq Require Import Permutation.
 Open Scope Z_scope.
 
-(** For every well-formed FASTA structure (any number of records, any line
-    width, LF or CRLF per record, descriptions, blank lines before / between
-    records, last line terminated or not) NewIndex of the rendered bytes is
+(** For every well-formed FASTA structure (any number of records, records
+    WITHOUT sequence — a header directly followed by another header, by blank
+    lines or by the end of the file — included, any line width, LF or CRLF per
+    record, descriptions, blank lines before / between records, last line
+    terminated or not) whose lines fit the bufio.Scanner of NewIndex
+    ([lines_fit]: every line with its terminator has at most 65536 bytes, an
+    unterminated last line at most 65535), NewIndex of the rendered bytes is
     exactly the list of true entries (name, length, offset of the first base,
-    bases per line, bytes per line) of its records. *)
+    bases per line, bytes per line; a record without sequence has
+    length 0, the offset just after its header line, and 0 / 0). *)
 Theorem fai_index_correct :
-  forall f, wf f = true -> newindex (render f) = Ok (index_of f).
+  forall f, wf f = true -> lines_fit (render f) = true -> newindex (render f) = Ok (index_of f).
 Proof. exact newindex_render. Qed.
 Print Assumptions fai_index_correct.
 
@@ -30,7 +35,7 @@ Print Assumptions fai_index_correct.
     exactly when fewer bases than the buffer size were left. *)
 Theorem fai_read_range :
   forall f rs1 r rs2 s e sizes,
-    wf f = true -> f_recs f = rs1 ++ r :: rs2 -> 0 <= s <= e -> e <= zlen (bases r) ->
+    wf f = true -> lines_fit (render f) = true -> f_recs f = rs1 ++ r :: rs2 -> 0 <= s <= e -> e <= zlen (bases r) ->
     exists idx q,
       newindex (render f) = Ok idx /\ file_seqrange idx (s_name r) s e = Ok q /\
       seq_script (render f) q sizes = ideal_script (slice (bases r) s e) (slice (bases r) s e) sizes.
@@ -40,7 +45,7 @@ Print Assumptions fai_read_range.
 (** The same for File.Seq (the complete sequence). *)
 Theorem fai_read_whole :
   forall f rs1 r rs2 sizes,
-    wf f = true -> f_recs f = rs1 ++ r :: rs2 ->
+    wf f = true -> lines_fit (render f) = true -> f_recs f = rs1 ++ r :: rs2 ->
     exists idx q,
       newindex (render f) = Ok idx /\ file_seq idx (s_name r) = Ok q /\
       seq_script (render f) q sizes = ideal_script (bases r) (bases r) sizes.
@@ -52,7 +57,7 @@ Print Assumptions fai_read_whole.
     and io.EOF is reported. *)
 Theorem fai_read_to_eof :
   forall f rs1 r rs2 s e sizes,
-    wf f = true -> f_recs f = rs1 ++ r :: rs2 -> 0 <= s <= e -> e <= zlen (bases r) ->
+    wf f = true -> lines_fit (render f) = true -> f_recs f = rs1 ++ r :: rs2 -> 0 <= s <= e -> e <= zlen (bases r) ->
     Forall (fun k => 1 <= k) sizes -> e - s < fold_right Z.add 0 sizes ->
     exists idx q,
       newindex (render f) = Ok idx /\ file_seqrange idx (s_name r) s e = Ok q /\
@@ -69,25 +74,34 @@ Theorem fai_read_zero_length :
 Proof. exact read_zero_length. Qed.
 Print Assumptions fai_read_zero_length.
 
+(** Beyond the Scanner's limit NewIndex answers with an error — the
+    Scanner's "token too long", or an error exit of the scan loop on an
+    earlier line — for EVERY input, never with an index (no wrong data). *)
+Theorem fai_long_line_is_error :
+  forall file, lines_fit file = false -> exists e, newindex file = Err e.
+Proof. exact newindex_too_long. Qed.
+Print Assumptions fai_long_line_is_error.
+
 (** WriteTo then ReadFrom gives the index back — the same records, listed by
-    ascending Start — for every index with unique names that contain no
-    double quote, TAB, CR, LF (encoding/csv is modelled as a plain LF / TAB
-    split, which is what it does on such names), numbers in int64 and a
-    geometry that passes the validation of ReadFrom ([geometry_ok]: nothing
-    negative, BasesPerLine 0 only for Length 0, BytesPerLine >= BasesPerLine,
-    offset of the last base below 2^63); all of that is [good_rec]. *)
+    ascending Start — for every index with unique names that contain no TAB
+    and no LF (any other byte, double quotes included: ReadFrom splits lines
+    at TABs without quoting rules), numbers in int64 and a geometry that
+    passes the validation of ReadFrom ([geometry_ok]: nothing negative,
+    BasesPerLine 0 only for Length 0, BytesPerLine >= BasesPerLine, offset of
+    the last base below 2^63); all of that is [good_rec]. *)
 Theorem fai_tsv_roundtrip :
   forall idx, NoDup (map r_name idx) -> Forall good_rec idx ->
     readfrom (writeto idx) = Ok (sort_by_start idx) /\ Permutation (sort_by_start idx) idx.
 Proof. exact tsv_roundtrip. Qed.
 Print Assumptions fai_tsv_roundtrip.
 
-(** The index NewIndex builds for a well-formed file survives WriteTo /
-    ReadFrom unchanged: its entries are sorted, uniquely named and pass the
-    geometry validation of ReadFrom (no double quote in a name; twice the file
-    size stays below 2^63, which keeps the validation's overflow test away). *)
+(** The index of EVERY well-formed file (quotes in names, records without
+    sequence included) survives WriteTo / ReadFrom unchanged: its entries are
+    sorted, uniquely named and pass the geometry validation of ReadFrom
+    (twice the file size stays below 2^63, which keeps the validation's
+    overflow test away). *)
 Theorem fai_tsv_roundtrip_index :
-  forall f, wf f = true -> no_quote f = true -> 2 * zlen (render f) + 2 < 2 ^ 63 ->
+  forall f, wf f = true -> 2 * zlen (render f) + 2 < 2 ^ 63 ->
     readfrom (writeto (index_of f)) = Ok (index_of f).
 Proof. exact tsv_roundtrip_index. Qed.
 Print Assumptions fai_tsv_roundtrip_index.
@@ -109,13 +123,16 @@ Theorem fai_blank_offset_needed :
 Proof. exact blank_offset_needed. Qed.
 Print Assumptions fai_blank_offset_needed.
 
-(** Non-vacuity: a CRLF file with a description, a blank line and no final
-    newline is well-formed; its index and a read across a line end. *)
+(** Non-vacuity: a CRLF file with a description, a blank line, a record
+    without sequence, a name with a double quote and no final newline is
+    well-formed and fits; its index, a read across a line end, the TSV round trip. *)
 Example fai_example :
   let f := mkF [true] [mkS [97] [32; 100] [[65; 67; 71]; [84; 65; 67]] [71] true [true];
-                       mkS [98] [] [] [78; 78] true []] false in
-  wf f = true
-  /\ newindex (render f) = Ok [mkRec [97] 7 8 3 5; mkRec [98] 2 27 2 2]
+                       mkS [101] [] [] [] true [];
+                       mkS [34; 98] [] [] [78; 78] true []] false in
+  wf f = true /\ lines_fit (render f) = true
+  /\ newindex (render f) = Ok [mkRec [97] 7 8 3 5; mkRec [101] 0 27 0 0; mkRec [34; 98] 2 32 2 2]
+  /\ readfrom (writeto (index_of f)) = Ok (index_of f)
   /\ match file_seqrange (index_of f) [97] 2 7 with
      | Ok q => seq_script (render f) q [2; 0; 10; 1] = [Ok ([71; 84], 0); Ok ([], 0); Ok ([65; 67; 71], 1); Ok ([], 1)]
      | _ => False
